@@ -131,6 +131,13 @@ def rule_axis(rep, fb, methods=AXIS_METHODS, floor=40, name="AXIS.depth"):
                         r.check(allowed, key, where, "%s::%s continues the recursion with %s(...) - a different (axis, depth) operation - on %s" % (cls, f["name"], m[1], unparse(cexpr(m[3]))[:50]),
                                 detail="tabled sibling step")
         each_block_cont(f["body"], onblock)
+        # the wrap of a negative axis is relative to this node's depth: the one-argument form counts from the top of *this* node,
+        # which is the whole array only at depth 0 (below a record or union the result is off by `depth` levels)
+        for m in find_all(f["body"], lambda n: n[0] == "mcall" and n[1] == "axis_wrap_if_negative"):
+            aa = [cexpr(a) for a in m[4]]
+            r.check(aa == [("var", "axis"), ("var", "depth")], "%s::%s:wrap" % (cls, f["name"]), "%s:%d" % (f["file"], m[-1]),
+                    "%s::%s wraps a negative axis with axis_wrap_if_negative(%s) instead of (axis, depth): the wrapped axis is not counted from this node's depth" % (cls, f["name"], ", ".join(unparse(a) for a in aa)),
+                    detail="negative axis wrapped relative to depth")
         # comparisons between (pos)axis and depth
         for c in find_all(f["body"], lambda n: n[0] == "bin" and n[1] in ("==", "!=", "<", "<=", ">", ">=")):
             txt = repr(c)
@@ -192,6 +199,19 @@ def rule_negaxis(rep, fb, floor=40):
                         key = "%s::%s->%s[%s]" % (cls, f["name"], recvtxt, "nonlocal" if under_nonlocal else "local")
                         r.check(form == want, key, "%s:%d" % (f["file"], m[-1]), "%s::%s passes '%s' as negaxis on the %s branch (expected %s)" % (cls, f["name"], form, "non-local" if under_nonlocal else "local/forwarding", want),
                                 detail="passes %s" % form)
+                        # the number of output groups goes with the parents handed down: the caller's own pair unchanged, or, below a list-offset node,
+                        # the groups this node has just formed (maxnextparents + 1 across lists, one per list within lists)
+                        if "parents" in pn and "outlength" in pn:
+                            pa, oa = cexpr(args[pn.index("parents")]), cexpr(args[pn.index("outlength")])
+                            if pa == ("var", "parents") or cls != "ListOffsetArrayOf":
+                                wanto = ("var", "outlength")
+                            elif under_nonlocal:
+                                wanto = cexpr(("bin", "+", ("var", "maxnextparents"), ("const", 1)))
+                            else:
+                                wanto = cexpr(("bin", "-", ("mcall", "length", None, ("member", ("this",), "offsets_"), ()), ("const", 1)))
+                            r.check(oa == wanto, key + ":outlength", "%s:%d" % (f["file"], m[-1]),
+                                    "%s::%s hands parents '%s' down with outlength '%s' (expected '%s'): the callee sizes its output by outlength, one slot per distinct parent" % (cls, f["name"], unparse(pa), unparse(oa), unparse(wanto)),
+                                    detail="outlength matches the parents passed")
                 if st[0] == "if":
                     c = cexpr(st[1]) if st[1][0] != "declcond" else None
                     isnl = bool(c) and bool(find_all((c,), lambda n: n[0] == "bin" and n[1] == "==" and "negaxis" in repr(n) and "branchdepth" in repr(n)))
@@ -201,6 +221,15 @@ def rule_negaxis(rep, fb, floor=40):
                     for b in sub_blocks(st):
                         visit(b, under_nonlocal)
         visit(f["body"], False)
+        # an option node hands back the content's result untouched whenever the reduction is at this node or above it (negaxis >= depth below):
+        # with `==` the levels above fall into the "reduction is deeper" arm, which re-wraps the already reduced content with the unreduced index
+        if f["name"] == "reduce_next" and cls in ("IndexedArrayOf", "ByteMaskedArray"):
+            for st in find_all(f["body"], lambda n: n[0] == "if" and len(n[2]) == 1 and n[2][0][0] == "return" and n[2][0][1] == ("var", "out")
+                               and find_all((n[1],), lambda k: k[0] == "bin" and "negaxis" in repr(k) and "branchdepth" in repr(k) and k[1] in ("==", ">=", ">", "<", "<=", "!="))):
+                cmpx = [k for k in find_all((st[1],), lambda k: k[0] == "bin" and k[1] in ("==", ">=", ">", "<", "<=", "!=") and "negaxis" in repr(k))]
+                ok = all(cexpr(k) == ("bin", "<=", ("member", ("var", "branchdepth"), "second"), ("var", "negaxis")) for k in cmpx)
+                r.check(ok, "%s::reduce_next:early-return" % cls, "%s:%d" % (f["file"], st[-1] if isinstance(st[-1], int) else f["line"]),
+                        "%s::reduce_next returns the content's result as it is only for `%s` (expected negaxis >= branchdepth.second)" % (cls, " / ".join(unparse(cexpr(k)) for k in cmpx)), detail="negaxis >= branchdepth.second")
     return r.done()
 
 
